@@ -236,7 +236,21 @@ def run_case(case: dict) -> dict:
             except Exception as e:  # noqa: BLE001
                 viols.append(core.viol("map shorter than the substrates' atoms raised something other than ValueError", None, error=repr(e)[:200], **ctx))
     try:
-        lm = LabelMapper(base, label_variables=dict(labels), label_maps={k: list(v) for k, v in maps.items()}).build_model(initial_labels=dict(init) or None)
+        mapper = LabelMapper(base, label_variables=dict(labels), label_maps={k: list(v) for k, v in maps.items()})
+        if labels and rng.random() < 0.5:
+            # the caller looks the isotopomer names up first and uses the returned lists for purposes of its own
+            # (reversed for a legend, unlabelled species dropped, emptied) — before this build and, in the same process, the next
+            for nm, lst in mapper.get_isotopomers().items():
+                if lst != iso_names(nm, labels[nm]):
+                    viols.append(core.viol("get_isotopomers does not list the 2**n isotopomer names", None, compound=nm, got=lst[:8], **ctx))
+                rng.choice([lst.reverse, lst.clear, lambda lst=lst: lst.pop(0)])()
+            one = rng.choice(sorted(labels))
+            lst = mapper.get_isotopomer_of(one)
+            if lst != iso_names(one, labels[one]):
+                viols.append(core.viol("get_isotopomer_of does not list the 2**n isotopomer names", None, compound=one, got=lst[:8], **ctx))
+            rng.choice([lst.reverse, lst.clear, lambda lst=lst: lst.pop(0)])()
+            counters["name_lists_looked_up_and_modified_by_the_caller_before_the_build"] = 1
+        lm = mapper.build_model(initial_labels=dict(init) or None)
     except Exception as e:  # noqa: BLE001
         import traceback
 
